@@ -68,8 +68,8 @@ def _triple(xml, e, text=None):
         # an attribute inside a meta block is never the author's: bluebell (and cobalt) write every one of them
         if node and attr and any(a.tag.split('}')[-1] == 'meta' for a in node[0].iterancestors()):
             kind = 'meta-' + kind
-        # ... and an attribute whose value is not the one written in the text (`{name value}`) is not the author's either
-        elif node and attr and text is not None and node[0].get(attr) is not None and (node[0].get(attr).strip() == '' or ('%s %s' % (attr, node[0].get(attr).strip())) not in text):
+        # ... and an attribute whose value stands nowhere in the text (`{name value}`, a link target, an image source) is not the author's either
+        elif node and attr and text is not None and node[0].get(attr) is not None and (node[0].get(attr).strip() == '' or node[0].get(attr).strip() not in text):
             kind = 'changed-' + kind
     except Exception:
         pass
